@@ -397,9 +397,6 @@ class TensorDictParams(TensorDictBase, nn.Module):
         buffers: dict | None = None,
         **kwargs,
     ):
-        if is_compiling():
-            return TensorDictParams(parameters, no_convert="skip", lock=lock)
-
         if parameters is None:
             parameters = kwargs
 
@@ -409,6 +406,10 @@ class TensorDictParams(TensorDictBase, nn.Module):
                 # Then _new_unsafe is called from somewhere that doesn't know
                 #  that it's a TDParams and we return a TensorDict (eg, torch.gather)
                 return parameters
+        if is_compiling():
+            # (after the dict case, as in eager mode: the batch size, names and device that
+            # come with a dict of entries must not be dropped)
+            return TensorDictParams(parameters, no_convert="skip", lock=lock)
         elif isinstance(parameters, TensorDictParams):
             if kwargs:
                 raise TypeError(
